@@ -1,0 +1,27 @@
+//go:build verif
+// +build verif
+
+package iavl
+
+import "sync"
+
+// Under the "verif" build tag Close() waits until the iterator's producer goroutine has
+// returned. Without it that goroutine may still be walking the tree (and loading nodes from
+// the DB) after the consumer stopped early and closed the iterator; when and whether it runs
+// is up to the Go scheduler, which the /verif simulator does not own.
+var simIterDoneCh sync.Map // *iavlIterator -> chan struct{}
+
+func simIterStart(iter *iavlIterator) { simIterDoneCh.Store(iter, make(chan struct{})) }
+
+func simIterDone(iter *iavlIterator) {
+	if ch, ok := simIterDoneCh.Load(iter); ok {
+		close(ch.(chan struct{}))
+	}
+}
+
+func simIterWait(iter *iavlIterator) {
+	if ch, ok := simIterDoneCh.Load(iter); ok {
+		<-ch.(chan struct{})
+		simIterDoneCh.Delete(iter)
+	}
+}
